@@ -8,68 +8,83 @@ props = [json.loads(l) for l in open(os.path.join(V, 'properties.jsonl'))]
 
 # id -> (claimed?, level text, technique, level_note)
 T = {
- 'C01': ('Coq: validity (wf_array / wf_fermi) is preserved by each modelled operation and, by induction, by every finite program over them '
-         '(Props/C01.v); every array the implementation returns in random programs is judged by the Coq predicate Model.Valid (vm_compute)',
-         'Coq invariant proof by induction over programs + vm_compute audit of implementation outputs'),
- 'C02': ('Coq theorem blockwise_sem: for every symmetry, rank, table, sparsity and axes choice the blockwise contraction equals the dense '
-         'contraction in (charge, offset) coordinates, + charge/index-table theorems, front end with negative axes, matmul; fused mode tied by '
-         'correspondence and the dense numpy oracle',
+ 'C01': ('validity (wf_array / wf_fermi, bridged to the audited predicate Model.Valid) is preserved by every modelled operation — fuse with any groups, unfuse, '
+         'einsum, contraction in every mode, the fermionic versions, and the decompositions qr/svd/eigh/solve/svd_truncated as instructions (C01c) — and, by '
+         'induction, by every finite program; every array (and block vector) the implementation returns in random programs is judged by the Coq predicate (vm_compute)',
+         'Coq invariant proof by induction over programs + vm_compute audit of implementation outputs by the Coq predicate'),
+ 'C02': ('blockwise_sem: for every symmetry, rank, table, sparsity and axes choice the block-sparse contraction equals the dense contraction in (charge, offset) '
+         'coordinates and as to_dense(result) = tensordot(to_dense a, to_dense b); charge/index-table theorems, negative axes, matmul, trace, single-array einsum, '
+         'scalar and no-aligned-blocks cases; fused = blockwise at value level via C06',
          'Coq refinement proof (block-sparse -> dense) + cases.v correspondence + numpy oracle on own dense embedding'),
- 'C03': ('Coq: the GENERATED Koszul routine equals the odd-odd inversion parity for every permutation; value-level theorems for transpose / '
-         'phase operations / contraction sign formula on the fermionic model; model tied by correspondence; independent dense graded reference as oracle',
-         'Coq proof over translated source + hand model correspondence + independent graded-tensor oracle'),
- 'C04': ('Coq: translated label order is a strict total order, the phased sort terminates and returns the sorted merge with the inversion-parity '
-         'sign, label-level associativity and operand swap laws, Koszul-sign algebra (K_trans, star_assoc, ...); routes compared on the implementation',
-         'Coq proof over translated source (OpOrder, PhasePerm) + correspondence + route-comparison oracle'),
- 'C05': ('Coq: the fused index tables exactly partition the fused charge (sorted, distinct, sizes, signed combination, direction of the first axis), '
-         'range partition lemma, single-group fuse layout and unfuse∘fuse round trip at value level (every original block bit-for-bit, extra blocks zero); '
-         'multi-group / nested / concat strategy by correspondence and the relocation oracle',
-         'Coq round-trip / invariant proofs + cases.v correspondence + element-relocation oracle'),
- 'C06': ('Coq: aligned operands contract to the same blocks as the originals, aligned operands get identical fused tables, fused = blockwise at value '
-         'level (partial); strategies and pre-fusing routes compared on the implementation, model of the fused path tied by correspondence',
-         'Coq proof (partial) + cases.v correspondence + strategy-agreement oracle'),
- 'C07': ('Coq: faithful fuel-bounded model of calc_reshape_args; finite-domain theorem (all shapes with <=5 axes of sizes in {1,2,3,4,6}, all reachable '
-         'targets) by vm_compute lifted with forallb_forall, unbounded same-shape and plan-executor lemmas; three pinned known findings excluded visibly',
-         'Coq finite-domain decision (bound in the statement) + unbounded lemmas + exhaustive correspondence'),
- 'C08': ('Coq: 26 theorems — every listed structural / arithmetic operation commutes with the coordinate semantics for every rank, table, symmetry and ring; '
-         'raise conditions characterised (sub_none, squeeze_none); three entry points compared on the implementation',
-         'Coq refinement proofs + cases.v correspondence + numpy oracle'),
- 'C09': ('Coq: 33 theorems — sync is idempotent and value-preserving; every phase/structural operation and every finite program of them gives equivalent '
-         'results on a lazy array and its synchronised copy; block-reading operations (tensordot, matmul, trace, fuse, unfuse, einsum) are congruences',
-         'Coq congruence proofs by induction over programs + cases.v correspondence + lazy-vs-synced oracle'),
- 'C10': ('Coq: conj∘conj, dagger∘dagger (exact law incl. the dual-leg option), adjoint = conjugate then fermionic reversal for both option values, '
-         'bookkeeping; norms and network norms checked on the implementation with exact integer data along random routes',
-         'Coq algebraic-law proofs + cases.v correspondence + integer norm oracle'),
- 'C11': ('Coq: structure theorems of the decompositions over LAPACK oracles stated as Section hypotheses (bond index, directions, charge identity, validity, '
-         'reconstruction at block level); reconstruction / orthonormality / triangularity checked numerically on the implementation',
-         'Coq proof over oracle contracts (partial) + structural correspondence + numerical oracle'),
- 'C12': ('Coq: the block-sparse factors densify to a decomposition of the dense matrix given the per-block LAPACK contract (partial: uniqueness of spectra '
-         'is not formalised); spectra compared with numpy on the dense matrix',
-         'Coq proof over oracle contracts (partial) + numpy oracle'),
- 'C13': ('Coq: 13 unbounded theorems about the selection logic tied to the code (kept >= discarded, cutoff maximal and monotone, bond limit with exact tie '
-         'characterisation, no-cutoff distribution); stubbed-SVD exact correspondence in all six modes',
+ 'C03': ('the GENERATED Koszul routine equals the odd-odd inversion parity for every permutation; value-level theorems for transpose / phase operations; '
+         'contraction sign formula and element-level formula in all modes; matmul/trace/einsum values; independent dense graded reference as oracle',
+         'Coq proof over translated source (PhasePerm) + hand model correspondence + independent graded-tensor oracle'),
+ 'C04': ('translated label order is a strict total order; the phased sort terminates and returns the sorted merge with the inversion-parity sign; ARRAY level: '
+         'operand swap = fermionic transpose of the result, axis re-listing, associativity of a chain in general position with ANY mode on all four contractions, '
+         'several pairs in one call = one pair after the other (C04d)',
+         'Coq proof over translated source (OpOrder, PhasePerm) + correspondence + all-routes oracle with independent reference'),
+ 'C05': ('fused index tables exactly partition the fused charge (sorted, distinct, sizes, signed combination, direction of the first axis); layout and unfuse∘fuse '
+         'round trip for ANY list of groups at value level (every original block bit-for-bit, extra blocks zero), for abelian AND fermionic arrays (C05h: the fuse and '
+         'unfuse signs cancel); insert = concat strategy (Leibniz equality); generated calc_fuse_group_info and helpers equal the model',
+         'Coq round-trip / invariant proofs + translated helpers + cases.v correspondence + element-relocation oracle'),
+ 'C06': ('alignment drops only partner-less blocks; aligned operands get identical fused tables; fused = blockwise FULL (equal charge, indices and value at every '
+         'coordinate), all modes agree; record equality refuted by example (fused stores extra zero blocks), so the statement is at value level',
+         'Coq proof + cases.v correspondence (current fused path) + strategy / pre-fusing oracle incl. exhaustive single-block removal'),
+ 'C07': ('faithful fuel-bounded model of calc_reshape_args; finite-domain theorem (all shapes with <=5 axes of sizes in {1,2,3,4,6}, all reachable targets) by '
+         'vm_compute lifted with forallb_forall; unbounded: plan executor preserves norm and the multiset of entries for multi-group plans, round trip for one merged '
+         'run; three pinned known findings refuted with witnesses',
+         'Coq finite-domain decision (bound in the statement) + unbounded lemmas + exhaustive correspondence + array round-trip oracle'),
+ 'C08': ('every listed structural / elementwise / arithmetic operation commutes with the coordinate semantics and with to_dense for every rank, table, symmetry and '
+         'ring; raise conditions characterised; interface functions are plain forwarders (generated table)',
+         'Coq refinement proofs + generated interface table + cases.v correspondence + numpy oracle'),
+ 'C09': ('sync is idempotent and value-preserving; every phase/structural operation and every finite program of them gives equivalent results on a lazy array and its '
+         'synchronised copy; tensordot/matmul/trace/fuse/unfuse/einsum, eigh/solve/qr/svd and the reductions item/sum/max/min/abs/clip/norm (C09c) are congruences; '
+         'item reads the signed value exactly once; the pre-fix readers refuted',
+         'Coq congruence proofs by induction over programs + cases.v correspondence (strict sign tables, reductions) + lazy-vs-synced oracle'),
+ 'C10': ('conj∘conj, dagger∘dagger (exact law incl. the dual-leg option), adjoint = conjugate then reversal; NORM: conj(x)·x = Σ|x|² (both orders, general label lists); '
+         'conj is an anti-homomorphism of tensordot; two-tensor and chain network norms',
+         'Coq algebraic-law proofs + cases.v correspondence + integer norm oracle along random routes'),
+ 'C11': ('structure of qr/svd/eigh/solve (bond index, directions, charge identity, no overwrite, validity) and reconstruction at every coordinate incl. the fermionic '
+         'versions, over LAPACK oracles stated as Section hypotheses; reconstruction / orthonormality / triangularity checked numerically on the implementation',
+         'Coq proof over oracle contracts + structural correspondence with stub oracles + numerical oracle'),
+ 'C12': ('the block-sparse factors densify to a decomposition of the dense matrix given the per-block LAPACK contract (eigen / singular pairs, solve, norm); partial: '
+         'uniqueness of spectra is not formalised; spectra compared with numpy on the dense matrix',
+         'Coq proof over oracle contracts (partial) + numpy oracle on own dense embedding'),
+ 'C13': ('selection logic tied to the code: kept >= discarded, cutoff maximal and monotone (incl. above the total weight), bond limit with exact tie characterisation, '
+         'no-cutoff distribution; truncated factors valid, absorb modes equal, truncated product = kept part of the SVD sum, residual = discarded part, error identity',
          'Coq proofs over exact model + bit-exact correspondence with stubbed SVD + real-SVD oracle'),
- 'C14': ('Coq: frame theorem for a heap language (scripts accepted by an ownership analysis leave every pre-existing dict/buffer unchanged), every operation '
-         'script accepted, programs_frame by induction; mutation sites regenerated from the source; alias-graph correspondence',
+ 'C14': ('frame theorem for a heap language (scripts accepted by an ownership analysis leave every pre-existing dict/buffer unchanged), every operation script '
+         'accepted, programs_frame by induction; inplace=True equals the out-of-place result; mutation sites regenerated from the source',
          'Coq frame proof over heap scripts + generated mutation-site scan + alias-graph correspondence'),
- 'C15': ('Coq: LRU memo machine refines the function for every history/maxsize given key soundness; generated cache key determines everything the plan reads; '
-         'mode context manager restores the mode for every body outcome (on the generated term); every interleaving returns f args and none raises',
+ 'C15': ('LRU memo machine refines the function for every history/maxsize given key soundness; generated cache key determines everything the plan reads; mode context '
+         'manager restores the mode for every body outcome (generated term); every interleaving returns f args and none raises (refuted for the pre-fix script)',
          'Coq refinement + interleaving proofs over generated key/context-manager terms + history correspondence + forced-schedule replay'),
- 'C16': ('Coq: constructors agree (from_blocks / from_fill_fn / direct), dense round trip on the model; construction routes and defaults compared on the implementation',
-         'Coq round-trip proofs (partial) + generated constructor defaults + correspondence'),
- 'C17': ('Coq: GroupLaws for the five symmetries on definitions regenerated from symmetries.py (all integers / all valid charges); sector enumeration exact '
+ 'C16': ('constructors agree (from_blocks / from_fill_fn / direct, charge inference), to_dense∘from_dense = projection, from_dense∘to_dense = identity; generated defaults '
+         'and class symmetry table; construction routes compared on the implementation',
+         'Coq round-trip proofs + generated constructor defaults + correspondence + numpy projection oracle'),
+ 'C17': ('GroupLaws for the five symmetries on definitions regenerated from symmetries.py (all integers / all valid charges); sector enumeration exact '
          '(none missing, extra or repeated) for every symmetry with the laws, every rank',
          'Coq proof over translated source + vm_compute correspondence'),
- 'C18': ('Coq: the library algorithm for local operator elements equals the Jordan-Wigner vacuum expectation value (anticommutation, sort invariance); '
-         'builders checked against an independent Fock-space construction',
+ 'C18': ('the library algorithm for local operator elements equals the Jordan-Wigner vacuum expectation value (anticommutation, sort invariance, fuel sufficient); '
+         'product formula with the basis sign on complete bases; generated builders Hermitian with parity-correct charge maps',
          'Coq proof over hand model + generated builder data + independent Jordan-Wigner oracle'),
- 'C19': ('Coq: coordination = degree for every edge list, factory specs, on-site totals, edge sums equal the lattice Hamiltonian as formal polynomials '
-         '(Hubbard, spinless, TFIM), on definitions regenerated from hamiltonians.py',
+ 'C19': ('coordination = degree for every edge list, factory specs, on-site totals, edge sums equal the lattice Hamiltonian as formal polynomials '
+         '(Hubbard, spinless, TFIM), on definitions regenerated from hamiltonians.py; bond-name collision refuted (F15)',
          'Coq proof over translated source + correspondence + independent Jordan-Wigner oracle'),
- 'C20': ('Coq: dtype tags are preserved by every modelled instruction and program under two named side conditions (full statement refuted with a witness = '
+ 'C20': ('dtype tags are preserved by every modelled instruction and program under two named side conditions (full statement refuted with a witness = '
          'pinned known findings F13/F13b); numpy promotion table compared with the installed numpy on every run',
          'Coq invariant proof (partial, side conditions named) + dtype correspondence of every block of every result'),
 }
+
+
+def n_theorems(pid):
+    import glob, re
+    n = 0
+    for f in glob.glob(os.path.join(V, 'coq', 'Props', pid + '*.v')):
+        if re.fullmatch(pid + r'[a-z]?\.v', os.path.basename(f)):
+            n += len(re.findall(r'^Theorem ', open(f).read(), flags=re.M))
+    return n
+
 
 claimed = set(a for a in os.environ.get('CLAIMED', '').split(',') if a)
 NOTE = ('Trusted: Coq 8.16.1 kernel + VM (vm_compute in cases.v and finite-domain theorems), no axioms (Print Assumptions audited per run), '
@@ -82,6 +97,7 @@ for p in props:
     if i not in claimed:
         continue
     text, tech = T[i]
+    text = 'Coq, %d theorems in coq/Props/%s*.v, all closed under the global context (no axioms): %s' % (n_theorems(i), i, text)
     checks.append({
         'property_id': i,
         'quick_cmd': './check %s --tier quick' % i,
